@@ -185,7 +185,8 @@ def run(ctx):
     ctx.rule(R7, '= C09-R1 (after seed C10-e): a writer that waits for the table lock takes its snapshot after it got the lock - every path from '
                  'a lock acquisition to a use of the pinned snapshot passes VersionManager::pin; a DELETE that pinned first validates its victims '
                  'against the state from before the lock holder committed and is acknowledged for rows it does not remove')
-    from rules.c09 import lock_then_pin
+    from rules.c09 import lock_then_pin, lock_outlives_commit
+    lock_outlives_commit(ctx, prog, 'C10-R8')
     ctx.floor(R7, lock_then_pin(ctx, prog, R7), 2, 'functions that both pin a version and take a table lock')
 
 
